@@ -145,6 +145,18 @@ def rand_spec(rng):
         span = rng.choice([1, 9, 40, 124, rng.randrange(1, 500)]) * DAY
         # keep the list short: at most ~1500 steps of the net movement of one bump
         net = abs(sum(int(p[:-1]) * NOMINAL[p[-1]] for p in period_parts(s)))
+        if any(p[-1] == 'b' for p in period_parts(s)):
+            # k business days are k .. k + 2 * (k // 5 + 1) calendar days, depending on the weekday: '3b-3d' stands still from a Monday, so
+            # '2s3b-3d' moves by two seconds a step there (a 124-day span was 5 million steps: implementation timeout, thorough seed 0)
+            lo = hi = 0
+            for p in period_parts(s):
+                k = int(p[:-1])
+                if p[-1] == 'b':
+                    a, b = abs(k) * 86400, (abs(k) + 2 * (abs(k) // 5 + 1)) * 86400
+                    lo, hi = (lo + a, hi + b) if k > 0 else (lo - b, hi - a)
+                else:
+                    lo, hi = lo + k * NOMINAL[p[-1]], hi + k * NOMINAL[p[-1]]
+            net = 1 if lo <= 0 <= hi else min(abs(lo), abs(hi))
         if net and span > 1500 * net * TD(seconds=1):
             span = 1500 * net * TD(seconds=1)
         t1 = t0 + sgn * span + (TD(0) if rng.random() < 0.7 or span < DAY else sgn * TD(hours=5))
